@@ -45,10 +45,42 @@ type Env struct {
 	loopSt   *State // state at loop entry (for loop frames)
 	phiVal   func(ph interface{}) (Term, bool)
 	anchors  map[string]*anchor // quantified int variables (by SMT name) -> slice they index
+	// Well-formedness of references read from the heap inside contract
+	// expressions ("allocated before now"): ground reads are assumed directly;
+	// reads under a quantifier are embedded in the quantified formula - as an
+	// antecedent when the formula is a goal, as a conjunct when it is assumed.
+	mixed   bool     // under <==>: polarity unknown
+	hyp     bool     // the formula being built is assumed (not proved)
+	neg     bool     // negative position (left of ==>, under !)
+	binders []string // SMT names of the enclosing quantified variables
+	sides   *[]Term  // side facts collected for the innermost quantifier
 	// in loop clauses a name denotes the variable's current value (a phi), not the parameter's entry value
 	preferResolve bool
 	shadowable    map[string]bool
 	inOld    bool
+}
+
+// readWF records that value v of type t was read from the heap in state env.st.
+func (env *Env) readWF(v Term, t types.Type) {
+	cs := env.e.wf(v, t, env.st.alloc)
+	if len(cs) == 0 {
+		return
+	}
+	fact := and(cs...)
+	bound := false
+	for _, b := range env.binders {
+		if strings.Contains(v, b) {
+			bound = true
+			break
+		}
+	}
+	if !bound {
+		env.e.assume(fact)
+		return
+	}
+	if env.sides != nil {
+		*env.sides = append(*env.sides, fact)
+	}
 }
 
 func (env *Env) with(name string, tv TV) *Env {
@@ -162,7 +194,13 @@ func (env *Env) eval(ex Expr) (TV, error) {
 		}
 		return TV{}, fmt.Errorf("unknown identifier %q", n.Name)
 	case *Unary:
-		xv, err := env.eval(n.X)
+		uenv := env
+		if n.Op == "!" {
+			f := *env
+			f.neg = !env.neg
+			uenv = &f
+		}
+		xv, err := uenv.eval(n.X)
 		if err != nil {
 			return TV{}, err
 		}
@@ -196,6 +234,10 @@ func (env *Env) eval(ex Expr) (TV, error) {
 		var names []string
 		var sortsL []string
 		for _, v := range n.Vars {
+			raw := v.Type == "rawint" // an integer that is not re-indexed by a slice it subscripts
+			if raw {
+				v.Type = "int"
+			}
 			t, err := env.resolveType(v.Type)
 			if err != nil {
 				return TV{}, err
@@ -205,14 +247,56 @@ func (env *Env) eval(ex Expr) (TV, error) {
 			inner = inner.with(v.Name, TV{name, t})
 			names = append(names, name)
 			sortsL = append(sortsL, e.S.sortOf(t))
-			if isInteger(t) {
+			if isInteger(t) && !raw {
 				anch[name] = &anchor{abs: q(fmt.Sprintf("a:%s!%d", v.Name, e.n))}
 			}
 		}
 		inner.anchors = anch
+		var mySides []Term
+		inner.sides = &mySides
+		inner.binders = append(append([]string{}, env.binders...), names...)
+		for _, nm := range names {
+			if a := anch[nm]; a != nil {
+				inner.binders = append(inner.binders, a.abs)
+			}
+		}
 		b, err := inner.eval(n.Body)
 		if err != nil {
 			return TV{}, err
+		}
+		// side facts that mention only outer binders bubble up
+		var here []Term
+		for _, f := range mySides {
+			mine := false
+			for _, nm := range names {
+				if strings.Contains(f, nm) {
+					mine = true
+				}
+				if a := anch[nm]; a != nil && strings.Contains(f, a.abs) {
+					mine = true
+				}
+			}
+			if mine {
+				here = append(here, f)
+			} else if env.sides != nil {
+				*env.sides = append(*env.sides, f)
+			}
+		}
+		if len(here) > 0 && n.Forall && !env.mixed {
+			// dedupe
+			seenF := map[string]bool{}
+			var uniq []Term
+			for _, f := range here {
+				if !seenF[f] {
+					seenF[f] = true
+					uniq = append(uniq, f)
+				}
+			}
+			if env.hyp != env.neg {
+				b.T = and(append(uniq, b.T)...) // assumed: the facts hold as well
+			} else {
+				b.T = implies(and(uniq...), b.T) // goal: the facts may be used
+			}
 		}
 		var binders []string
 		var lets []string
@@ -365,7 +449,20 @@ func (env *Env) evalBinary(n *Binary) (TV, error) {
 		}
 		return TV{}, fmt.Errorf("'in' needs a map or set on the right")
 	}
-	a, err := env.eval(n.X)
+	lhs := env
+	if n.Op == "==>" {
+		f := *env
+		f.neg = !env.neg
+		lhs = &f
+	}
+	if n.Op == "<==>" {
+		// both polarities: quantifiers below cannot embed side facts
+		f := *env
+		f.mixed = true
+		lhs = &f
+		env = &f
+	}
+	a, err := lhs.eval(n.X)
 	if err != nil {
 		return TV{}, err
 	}
@@ -443,8 +540,8 @@ func (env *Env) derefStruct(p TV) (TV, types.Type, error) {
 	}
 	if pt, ok := t.Underlying().(*types.Pointer); ok {
 		f := env.e.ptrFam(pt.Elem())
-		env.e.closure(env.st, f, pt.Elem(), "")
-		return TV{fmt.Sprintf("(select %s %s)", env.e.get(env.st, f), p.T), pt.Elem()}, pt.Elem(), nil
+		v := fmt.Sprintf("(select %s %s)", env.e.get(env.st, f), p.T)
+		return TV{v, pt.Elem()}, pt.Elem(), nil
 	}
 	return p, t, nil
 }
@@ -512,6 +609,7 @@ func (env *Env) evalSel(n *Sel) (TV, error) {
 		}
 		e.S.sortOf(curT)
 		cur = TV{fmt.Sprintf("(%s %s)", e.S.fieldAcc(curT, ix), cur.T), su.Field(ix).Type()}
+		env.readWF(cur.T, su.Field(ix).Type())
 		curT = su.Field(ix).Type()
 	}
 	return cur, nil
@@ -565,20 +663,24 @@ func (env *Env) evalIndex(n *Index) (TV, error) {
 		if kt, ok := goType(iv); ok && isInterface(u.Key()) && !isInterface(kt) {
 			key = TV{e.S.toVal(iv.T, kt), u.Key()}
 		}
-		e.closure(env.st, vl, u.Elem(), e.S.sortOf(u.Key()))
-		return TV{fmt.Sprintf("(select (select %s %s) %s)", e.get(env.st, vl), xv.T, key.T), u.Elem()}, nil
+		mv := fmt.Sprintf("(select (select %s %s) %s)", e.get(env.st, vl), xv.T, key.T)
+		env.readWF(mv, u.Elem())
+		return TV{mv, u.Elem()}, nil
 	case *types.Slice:
 		f := e.elemFam(u.Elem())
-		e.closure(env.st, f, u.Elem(), "Int")
 		if a := env.anchors[iv.T]; a != nil && !strings.Contains(xv.T, iv.T) {
 			if a.slice == "" {
 				a.slice = xv.T
 			}
 			if a.slice == xv.T {
-				return TV{fmt.Sprintf("(select (select %s (sref %s)) %s)", e.get(env.st, f), xv.T, a.abs), u.Elem()}, nil
+				ev := fmt.Sprintf("(select (select %s (sref %s)) %s)", e.get(env.st, f), xv.T, a.abs)
+				env.readWF(ev, u.Elem())
+				return TV{ev, u.Elem()}, nil
 			}
 		}
-		return TV{fmt.Sprintf("(select (select %s (sref %s)) (+ (soff %s) %s))", e.get(env.st, f), xv.T, xv.T, iv.T), u.Elem()}, nil
+		ev := fmt.Sprintf("(select (select %s (sref %s)) (+ (soff %s) %s))", e.get(env.st, f), xv.T, xv.T, iv.T)
+		env.readWF(ev, u.Elem())
+		return TV{ev, u.Elem()}, nil
 	case *types.Basic:
 		if isString(t) {
 			return TV{fmt.Sprintf("(str.to_code (str.at %s %s))", xv.T, iv.T), types.Typ[types.Uint8]}, nil
@@ -678,6 +780,15 @@ func (env *Env) evalCall(n *Call) (TV, error) {
 		if t, ok := env.st.ghost[gk]; ok {
 			return TV{t, e.ghostTy[gk]}, nil
 		}
+		if ty, ok := e.ghostTy[gk]; ok {
+			// no call on this path: the value is unconstrained
+			t, have := e.ghostEntry[gk]
+			if !have {
+				t = e.declare("ghost:"+gk, e.S.sortOf(ty))
+				e.ghostEntry[gk] = t
+			}
+			return TV{t, ty}, nil
+		}
 		return TV{}, fmt.Errorf("%s: nothing recorded for %s (no call on this path?)", n.Fn, gk)
 	case "old":
 		if len(n.Args) != 1 {
@@ -712,6 +823,9 @@ func (env *Env) evalCall(n *Call) (TV, error) {
 	args, err := env.evalArgs(n.Args)
 	if err != nil {
 		return TV{}, err
+	}
+	if e.ghostFns[n.Fn] && len(args) == 1 {
+		return TV{fmt.Sprintf("(%s %s)", q("gf:"+n.Fn), args[0].T), tyInt}, nil
 	}
 	need := func(k int) error {
 		if len(args) != k {
